@@ -328,7 +328,9 @@ func (v holderView) CasByVersion(ctx context.Context, r kvs.Record) (kvs.Record,
 	}
 	c.mu.Unlock()
 	if flt == "req" || flt == "reply" {
-		return kvs.Record{}, errInjected
+		// what comes back with an error is unspecified by kvs.Storage (the Redis client returns the record it tried to
+		// write, with a version that was never stored): the caller must not use it
+		return kvs.Record{Key: r.Key, Value: r.Value, Version: fmt.Sprintf("never-stored-%d-%d", k, c.ts()), ExpiresAt: r.ExpiresAt}, errInjected
 	}
 	return res, err
 }
